@@ -219,6 +219,37 @@ pub fn rich(rng: &mut Rng, o: &RichOpts, layout: &Layout) -> DocSpec {
             vec![1, 2, 3, 4],
         );
         xobj_entries.push(("Im3".into(), Val::r(im3)));
+        // two filters of the kind that carries parameters (Flate inside Flate), none given
+        let pixels5: Vec<u8> = (0..4).map(|i| (40 + i * 5) as u8).collect();
+        let im5 = b.add_stream(
+            vec![
+                ("Type".into(), Val::name("XObject")),
+                ("Subtype".into(), Val::name("Image")),
+                ("Width".into(), Val::Int(2)),
+                ("Height".into(), Val::Int(2)),
+                ("ColorSpace".into(), Val::name("DeviceGray")),
+                ("BitsPerComponent".into(), Val::Int(8)),
+                ("Filter".into(), Val::Arr(vec![Val::name("FlateDecode"), Val::name("FlateDecode")])),
+            ],
+            zlib_stored(&zlib_stored(&pixels5)),
+        );
+        xobj_entries.push(("Im5".into(), Val::r(im5)));
+        // parameters for the second of two filters only: /DecodeParms [null << /Predictor 12 >>]
+        let rows6: Vec<u8> = (0..3u8).flat_map(|i| [0u8, 70 + i]).collect();
+        let im6 = b.add_stream(
+            vec![
+                ("Type".into(), Val::name("XObject")),
+                ("Subtype".into(), Val::name("Image")),
+                ("Width".into(), Val::Int(3)),
+                ("Height".into(), Val::Int(1)),
+                ("ColorSpace".into(), Val::name("DeviceGray")),
+                ("BitsPerComponent".into(), Val::Int(8)),
+                ("Filter".into(), Val::Arr(vec![Val::name("ASCIIHexDecode"), Val::name("FlateDecode")])),
+                ("DecodeParms".into(), Val::Arr(vec![Val::Null, Val::dict(vec![("Predictor", Val::Int(12))])])),
+            ],
+            ascii_hex(&zlib_stored(&rows6)),
+        );
+        xobj_entries.push(("Im6".into(), Val::r(im6)));
     }
     if o.forms {
         let fm = b.add_stream(
